@@ -20,6 +20,7 @@ enum { NL = 2500, NH = 5 };
 typedef struct { uint8_t* p; size_t usable; size_t req; uint32_t pat; int heap; size_t al, off; } blk_t;   // heap: -1 default/backing, 0..NH-1
 static blk_t live[NL]; static int nlive = 0;
 static mi_heap_t* heaps[NH]; static int heap_arena[NH];   // 1 if bound to the exclusive arena
+static int heap_nodestroy[NH];                            // 1 if created without allow_destroy (mi_heap_destroy must then behave as mi_heap_delete)
 static mi_heap_t* backing; static int default_is = -1;    // index of the heap set as default, -1 = backing
 static mi_arena_id_t excl_arena = 0; static uint8_t* excl_start = NULL; static size_t excl_size = 0;
 static int use_arena = 0;
@@ -250,17 +251,25 @@ static void op_owner(void) {
 }
 static void op_heap(void) {
   unsigned v = (unsigned)(rnd() % 10); int hi = (int)(rnd() % NH);
-  if (v < 4) { if (!heaps[hi]) { int bound = (use_arena && hi < 2); lastop = "mi_heap_new"; heaps[hi] = bound ? mi_heap_new_in_arena(excl_arena) : mi_heap_new(); heap_arena[hi] = bound; n_eval++; } }
+  if (v < 4) { if (!heaps[hi]) { int bound = (use_arena && hi < 2); lastop = "mi_heap_new"; int nod = (!bound && rnd() % 4 == 0);
+      heaps[hi] = bound ? mi_heap_new_in_arena(excl_arena) : (nod ? mi_heap_new_ex(0, false, _mi_arena_id_none()) : mi_heap_new()); heap_arena[hi] = bound; heap_nodestroy[hi] = (bound || nod); n_eval++; } }
   else if (v < 6) { if (heaps[hi]) { lastop = "mi_heap_delete"; int bound = heap_arena[hi];
       mi_heap_delete(heaps[hi]); n_eval++;
       // blocks migrate to the backing heap -- unless the heap is bound to another arena: then its pages are abandoned (no heap owns them until reclaimed)
       for (int i = 0; i < nlive; i++) if (live[i].heap == hi) live[i].heap = bound ? -2 : -1;
       if (default_is == hi) default_is = -1;
-      heaps[hi] = NULL; heap_arena[hi] = 0; for (int i = 0; i < nlive; i += 7) check_block(&live[i], "after heap_delete"); } }
-  else if (v < 7) { if (heaps[hi] && default_is != hi) { lastop = "mi_heap_destroy"; int bound = heap_arena[hi]; if (bound) mi_heap_delete(heaps[hi]); else mi_heap_destroy(heaps[hi]); n_eval++;
-      // (a heap made by mi_heap_new_in_arena does not allow destroy: the call is documented to fall back to mi_heap_delete)
-      for (int i = nlive - 1; i >= 0; i--) if (live[i].heap == hi) { if (bound) live[i].heap = -2; else drop(i); }
-      heaps[hi] = NULL; heap_arena[hi] = 0; for (int i = 0; i < nlive; i += 5) check_block(&live[i], "after heap_destroy"); } }
+      heaps[hi] = NULL; heap_arena[hi] = 0; heap_nodestroy[hi] = 0; for (int i = 0; i < nlive; i += 7) check_block(&live[i], "after heap_delete"); } }
+  else if (v < 7) { if (heaps[hi] && default_is != hi) { lastop = "mi_heap_destroy"; int bound = heap_arena[hi]; int nod = heap_nodestroy[hi];
+#ifdef NDEBUG
+      mi_heap_destroy(heaps[hi]);
+#else
+      if (nod) mi_heap_delete(heaps[hi]); else mi_heap_destroy(heaps[hi]);    // debug builds assert heap->no_reclaim in mi_heap_destroy (treated as API misuse there)
+#endif
+      n_eval++;
+      // (a heap that was not created with allow_destroy - e.g. by mi_heap_new_in_arena - may hold pages reclaimed from other threads: the call is
+      //  documented to fall back to mi_heap_delete, so its blocks stay valid)
+      for (int i = nlive - 1; i >= 0; i--) if (live[i].heap == hi) { if (bound) live[i].heap = -2; else if (nod) live[i].heap = -1; else drop(i); }
+      heaps[hi] = NULL; heap_arena[hi] = 0; heap_nodestroy[hi] = 0; for (int i = 0; i < nlive; i += 5) check_block(&live[i], "after heap_destroy"); } }
   else if (v < 8) { if (heaps[hi] && !heap_arena[hi]) { lastop = "mi_heap_set_default"; mi_heap_set_default(heaps[hi]); default_is = hi; n_eval++; } else { mi_heap_set_default(backing); default_is = -1; } }
   else if (v < 9) { lastop = "mi_heap_collect"; mi_heap_collect(heap_of(pick_heap()), rnd() % 2); n_eval++; }
   else { lastop = "mi_collect"; mi_collect(rnd() % 2); n_eval++; }
